@@ -15,8 +15,9 @@ PROPERTIES = {
         "constructor of veneer.py, per kind of argument, against the entry parsed mechanically from docs/reference/specifiers.rst at "
         "registration time (properties, priorities, dependencies, modifies)",
         note="bounded in the number of specifiers/properties (stated per contract), exact in the priorities; property values are identity "
-        "tokens (their geometric meaning is C07); on the unchanged tree two obligations fail and replay: tie detection depends on the "
-        "order (F6) and a modifying specifier may specify a final property",
+        "tokens (their geometric meaning is C07); before the fix commits two defects failed obligations and replayed: tie detection depended "
+        "on the order (F6) and a modifying specifier could specify a final property; the reference-table contracts include lazily evaluated "
+        "arguments (directly, or as a component of a tuple/list) for Facing, With and At: the specifier must depend on every property its argument needs",
         assumptions=[
             "at most one modifying specifier per object (the reference: `on` is the only one; the same specifier twice is rejected by name)",
             "reference-table contracts: coercions (toVector/toType/...), ego, RelativeTo/OffsetAlong, Region.uniformPointIn, Orientation.fromEuler "
@@ -37,6 +38,9 @@ PROPERTIES = {
             "unbounded (symbolic-length) version of the phase-1 loop with a loop invariant (Appendix B sketch): not done; the bounded worlds are exhaustive in priorities and orders only up to 3 non-modifying specifiers",
             "more than one modifying specifier (not expressible with built-in specifiers); note: 'modified twice' would raise NameError (undefined `name` in the message), observed on the real code",
             "internal properties (leading underscore: _observingEntity, _nonObservingEntity) are not part of the reference and are excluded from the table comparison",
+            "lazily evaluated arguments of the other constructors: on the real code FacingToward / FacingAwayFrom / FacingDirectly* / ApparentlyFacing / left of ... below "
+            "do NOT add the dependencies of a lazily evaluated vector/heading argument to the specifier (observed with a DelayedArgument requiring `width`); "
+            "OffsetBy / Beyond / Following / OffsetAlongSpec with such arguments need the lazy-operator layer (C05) and are not modelled here",
         ],
     ),
 }
